@@ -25,9 +25,25 @@ class DaemonLayer:
     def build(self):
         daemon.build()
 
+    def vary(self, seed):
+        """the profile of one run: the layer's profile, and from the 17th run of a sweep on (thorough tier, widened search) a
+        perturbation drawn from the seed: fault rates, calm phases and the number of clients scaled up or down"""
+        import random
+        R = random.Random(seed ^ 0x5eed)
+        prof = dict(self.profile)
+        base = daemon.Gen(0, None).p
+        for k, choices in (('faults', [0.2, 0.5, 1, 1, 2, 3]), ('calm', [0.3, 1, 1, 2]), ('garbage', [0.5, 1, 1, 3])):
+            prof[k] = prof.get(k, base[k]) * R.choice(choices)
+        prof['maxclients'] = max(1, prof.get('maxclients', base['maxclients']) + R.choice([-2, -1, 0, 0, 1, 3]))
+        return prof
+
     def _one(self, args):
-        seed, N = args
-        sim = daemon.simulate(seed, N, self.profile)
+        seed, N = args[:2]
+        profile = self.vary(seed) if len(args) > 2 and args[2] else self.profile
+        return self._run_one(seed, N, profile)
+
+    def _run_one(self, seed, N, profile):
+        sim = daemon.simulate(seed, N, profile)
         chunks = daemon.lean_side(sim)
         diffs = daemon.compare(sim, chunks) if self.do_compare else []
         tr = trace.parse(sim)
@@ -55,9 +71,9 @@ class DaemonLayer:
             st['C20 runs ended by teardown under LeakSanitizer'] += 1
         for v in V:
             at = v.get('at', len(sim['ops']) - 1)
-            v['replay'] = dict(layer=self.name, seed=seed, N=N, profile=self.profile, ops=sim['ops'][:at + 1] if at < 600 else None, at=at)
+            v['replay'] = dict(layer=self.name, seed=seed, N=N, profile=profile, ops=sim['ops'][:at + 1] if at < 600 else None, at=at)
         for d in diffs:
-            d['replay'] = dict(layer=self.name, seed=seed, N=N, profile=self.profile, at=d['at'])
+            d['replay'] = dict(layer=self.name, seed=seed, N=N, profile=profile, at=d['at'])
         hs = set()
         nontriv = 0
         for co in sim['couts']:
@@ -76,14 +92,14 @@ class DaemonLayer:
     def run(self, prop, tier, seed):
         nseeds, N = self.quick if tier == 'quick' else self.thorough if tier == 'thorough' else (self.quick[0] * 6, self.quick[1])
         self.build()
-        seeds = [(seed * 100003 + k * 7919 + 11, N) for k in range(nseeds)]
+        seeds = [(seed * 100003 + k * 7919 + 11, N, k >= 16) for k in range(nseeds)]
         rs = pmap(self._one, seeds)
         stats = collections.Counter()
         for r in rs: stats.update(r['stats'])
         return dict(name=self.name, evaluations=sum(r['passes'] for r in rs), distinct=sum(r['nontriv'] for r in rs),
                     samples=[r['sample'] for r in rs if r['sample']][:2],
                     stats=dict(sorted(stats.items())), diffs=[d for r in rs for d in r['diffs']], violations=[v for r in rs for v in r['violations']],
-                    rule='one evaluation = one pass of the daemon loop (kernel answers, client bytes and device bytes drawn from one PRNG per run; %d runs x %d passes, configuration mixp: vpc over tcp + statement-coverage spec as coprocess with ping); every pass compared field by field with the Lean model; non-trivial = a pass in which the real code issued at least one system call, distinct by the hash of everything it printed for that pass' % (nseeds, N))
+                    rule='one evaluation = one pass of the daemon loop (kernel answers, client bytes and device bytes drawn from one PRNG per run; %d runs x %d passes, from the 17th run on with fault rates, calm phases and client counts perturbed per run; configuration mixp: vpc over tcp + statement-coverage spec as coprocess with ping); every pass compared field by field with the Lean model; non-trivial = a pass in which the real code issued at least one system call, distinct by the hash of everything it printed for that pass' % (nseeds, N))
 
     def replay(self, rp, v):
         sim = daemon.simulate(rp['seed'], rp['N'], rp.get('profile'), fixed_ops=rp.get('ops'))
@@ -239,15 +255,16 @@ class PairedLayer:
     clients whose requests name only A's nodes must be identical, pass for pass.  Both runs are also compared with the model."""
     name = 'daemon-paired'
 
-    def __init__(self, quick=(16, 500), thorough=(512, 1200)):
-        self.quick = quick; self.thorough = thorough
+    def __init__(self, quick=(16, 500), thorough=(512, 1200), conf='mixp'):
+        self.quick = quick; self.thorough = thorough; self.conf = conf
+        if conf != 'mixp': self.name = 'daemon-paired-' + conf
 
     def build(self): daemon.build()
 
     def _one(self, args):
         seed, N = args
         V = []; diffs = []; st = collections.Counter()
-        sims = [daemon.simulate_sched(seed, N, False), daemon.simulate_sched(seed, N, True)]
+        sims = [daemon.simulate_sched(seed, N, False, self.conf), daemon.simulate_sched(seed, N, True, self.conf)]
         trs = []
         for sim in sims:
             chunks = daemon.lean_side(sim)
@@ -269,13 +286,15 @@ class PairedLayer:
                 V.append(dict(sig='C05 a client whose targets lie on the healthy device sees a different conversation when another device is sick',
                               fd=c['fd'], sick=sims[1]['sick_mode'], first_difference=dict(healthy=repr(ea[k])[:200] if k < len(ea) else None, sick=repr(eb[k])[:200] if k < len(eb) else None), at=(ea[k][0] if k < len(ea) else eb[k][0] if k < len(eb) else 0)))
         # device A's own transcript (what it was sent, pass by pass)
-        def a_transcript(t):
+        def a_transcript(t, afds=()):
             out = []
             for p in t:
                 for fd, w in p.writes.items():
-                    if 3000 <= fd < 5000 and w['data']: out.append((p.i, fd, w['data']))
+                    # descriptor numbers of a tcp device depend on how often the *other* device reconnected: compare without them
+                    if 3000 <= fd < 5000 and not afds and w['data']: out.append((p.i, fd, w['data']))
+                    elif fd in afds and w['data']: out.append((p.i, 'A', w['data']))
             return out
-        ta, tb = a_transcript(trs[0]), a_transcript(trs[1])
+        ta, tb = (a_transcript(trs[0]), a_transcript(trs[1])) if self.conf == 'mixp' else (a_transcript(trs[0], sims[0]['afds']), a_transcript(trs[1], sims[1]['afds']))
         st['device A writes compared'] += len(ta)
         if ta != tb:
             k = next((i for i, (x, y) in enumerate(zip(ta, tb)) if x != y), min(len(ta), len(tb)))
@@ -303,7 +322,7 @@ class PairedLayer:
 
     def replay(self, rp, v):
         for sick in (False, True):
-            sim = daemon.simulate_sched(rp['seed'], rp['N'], sick)
+            sim = daemon.simulate_sched(rp['seed'], rp['N'], sick, getattr(self, 'conf', 'mixp'))
             at = rp.get('at', 0)
             print('=== device B', sim['sick_mode'])
             for i in range(max(0, at - 2), min(len(sim['ops']), at + 2)):
@@ -311,7 +330,7 @@ class PairedLayer:
         return 1
 
 
-PROPS['C05'] = dict(layers=[PairedLayer()], planned=['C05_noninterference through a general client phase', 'equality up to renaming of descriptor numbers', 'stutter for the other waiting states'])
+PROPS['C05'] = dict(layers=[PairedLayer(), PairedLayer(conf='tcp2')], planned=['C05_noninterference through a general client phase', 'equality up to renaming of descriptor numbers', 'stutter for the other waiting states'])
 PROPS.move_to_end('C05', last=False)
 PROPS['C20']['layers'].append(SteadyLayer())
 
@@ -325,9 +344,10 @@ class MarkerLayer(DaemonLayer):
         self.factories = pred_factories
 
     def _one(self, args):
-        seed, N = args
+        seed, N = args[:2]
+        profile = self.vary(seed) if len(args) > 2 and args[2] else self.profile
         world = daemon.MarkerWorld(seed)
-        sim = daemon.simulate(seed, N, self.profile, world=world)
+        sim = daemon.simulate(seed, N, profile, world=world)
         chunks = daemon.lean_side(sim)
         diffs = daemon.compare(sim, chunks)
         tr = trace.parse(sim)
@@ -343,8 +363,8 @@ class MarkerLayer(DaemonLayer):
             # a sanitizer report is undefined behaviour of the real code on this very input: a failing input for any property
             if not s and (cls.startswith('asan') or cls == 'ubsan'): s = 'undefined behaviour in the real code (sanitizer): ' + cls
             if s: V.append(dict(sig=s, at=len(sim['ops']) - 1, detail=sim['stderr'][-1200:]))
-        for v in V: v['replay'] = dict(layer=self.name, seed=seed, N=N, profile=self.profile, at=v.get('at', len(sim['ops']) - 1), configuration=world.conf_text())
-        for d in diffs: d['replay'] = dict(layer=self.name, seed=seed, N=N, profile=self.profile, at=d['at'], configuration=world.conf_text())
+        for v in V: v['replay'] = dict(layer=self.name, seed=seed, N=N, profile=profile, at=v.get('at', len(sim['ops']) - 1), configuration=world.conf_text())
+        for d in diffs: d['replay'] = dict(layer=self.name, seed=seed, N=N, profile=profile, at=d['at'], configuration=world.conf_text())
         stats = collections.Counter(sim['stats']); stats.update(st)
         for d in world.devs:
             for k in d['has']: stats['config: script kind %d defined' % k] += 1
